@@ -262,10 +262,11 @@ def run_subprocess(w, data):
             with open(plan["result"]) as fh:
                 res = json.load(fh)
         if res is None:
-            return {"status": cp.returncode, "stderr": cp.stderr[-600:], "bytes": None, "harness": "no result file"}
+            return {"status": cp.returncode, "stderr": cp.stderr[-20000:], "bytes": None, "harness": "no result file"}
         okey = res["resolved"][w["output_name"]]
         b = res["files"].get(okey)
-        return {"status": cp.returncode, "stderr": cp.stderr[-600:], "exc": None,
+        # (the whole chained traceback: the first exception of the chain names the floating-point trap of the CLI)
+        return {"status": cp.returncode, "stderr": cp.stderr[-20000:], "exc": None,
                 "bytes": None if b is None else base64.b64decode(b),
                 "opened_w": sum(1 for e, p in res["events"] if e == "open_w" and p == okey),
                 "fired": [tuple(x) for x in res["fired"].get(okey, [])], "handles": 0}
